@@ -479,7 +479,73 @@ theorem firstMatchSrc_char (env : Env) (fb : Nat) : ∀ rs : List SrcRule,
 
 /-! ## the cache operations -/
 
-theorem lookup_removeFamily_same (c : Cache) (n : List Char) (t : Nat) (sc : Scope) :
+theorem takeWhile_append_all {α : Type} (p : α → Bool) (l1 l2 : List α) (h : ∀ c ∈ l1, p c = true) :
+    (l1 ++ l2).takeWhile p = l1 ++ l2.takeWhile p := by
+  induction l1 with
+  | nil => rfl
+  | cons c cs ih =>
+    have hc := h c List.mem_cons_self
+    simp only [List.cons_append, List.takeWhile_cons, hc, if_true]
+    rw [ih (fun x hx => h x (List.mem_cons_of_mem _ hx))]
+
+theorem takeWhile_all {α : Type} (p : α → Bool) (l : List α) (h : ∀ c ∈ l, p c = true) : l.takeWhile p = l := by
+  have := takeWhile_append_all p l [] h
+  simpa using this
+
+theorem takeWhile_length_lt {α : Type} (p : α → Bool) (l1 l2 : List α) (h : ∃ c ∈ l1, p c = false) :
+    ((l1 ++ l2).takeWhile p).length < l1.length := by
+  induction l1 with
+  | nil => obtain ⟨c, hc, _⟩ := h; cases hc
+  | cons c cs ih =>
+    simp only [List.cons_append, List.takeWhile_cons]
+    cases hp : p c with
+    | false => simp
+    | true =>
+      obtain ⟨x, hx, hpx⟩ := h
+      rcases List.mem_cons.mp hx with rfl | hx
+      · rw [hp] at hpx; cases hpx
+      · have := ih ⟨x, hx, hpx⟩
+        simp; omega
+
+theorem digit_ne_bar : ∀ d, d < 10 → (Char.ofNat (48 + d) != '|') = true := by decide
+
+theorem digitsFuel_no_bar : ∀ (f n : Nat), ∀ c ∈ digitsFuel f n, (c != '|') = true := by
+  intro f
+  induction f with
+  | zero => intro n c hc; cases hc
+  | succ f ih =>
+    intro n c hc
+    simp only [digitsFuel] at hc
+    split at hc
+    · rename_i hlt
+      simp only [List.mem_singleton] at hc; subst hc; exact digit_ne_bar n hlt
+    · simp only [List.mem_append, List.mem_singleton] at hc
+      rcases hc with hc | rfl
+      · exact ih _ c hc
+      · exact digit_ne_bar _ (Nat.mod_lt _ (by decide))
+
+/-- the base key of an entry whose name has no `|` is `name ++ qtype` -/
+theorem baseKeyOf_plain (n : List Char) (t : Nat) (sc : Scope) (h : ∀ c ∈ n, (c != '|') = true) :
+    baseKeyOf ⟨n, t, sc⟩ = n ++ natDigits t := by
+  unfold baseKeyOf
+  apply takeWhile_all
+  intro c hc
+  rcases List.mem_append.mp hc with hc | hc
+  · exact h c hc
+  · exact digitsFuel_no_bar _ _ c hc
+
+/-- ... and of an entry whose name contains `|` it is a proper prefix of the name: never `name ++ qtype` -/
+theorem baseKeyOf_bar (n : List Char) (t : Nat) (sc : Scope) (h : ∃ c ∈ n, (c != '|') = false) :
+    baseKeyOf ⟨n, t, sc⟩ ≠ n ++ natDigits t := by
+  intro heq
+  have h1 := takeWhile_length_lt (· != '|') n (natDigits t) h
+  unfold baseKeyOf at heq
+  rw [heq] at h1
+  simp only [List.length_append] at h1
+  omega
+
+theorem lookup_removeFamily_same (c : Cache) (n : List Char) (t : Nat) (sc : Scope)
+    (hn : ∀ x ∈ n, (x != '|') = true) :
     (Cache.removeFamily c n t).lookup ⟨n, t, sc⟩ = none := by
   induction c with
   | nil => rfl
@@ -492,13 +558,14 @@ theorem lookup_removeFamily_same (c : Cache) (n : List Char) (t : Nat) (sc : Sco
       have : (e.1 == (⟨n, t, sc⟩ : CacheKey)) = false := by
         rw [beq_eq_false_iff_ne]
         intro heq
-        simp [heq] at h
+        rw [heq, baseKeyOf_plain n t sc hn] at h
+        simp at h
       simp only [this]
       exact ih
     · exact ih
 
 theorem lookup_removeFamily_other (c : Cache) (n : List Char) (t : Nat) (k : CacheKey)
-    (h : ¬(k.name = n ∧ k.qtype = t)) : (Cache.removeFamily c n t).lookup k = c.lookup k := by
+    (h : baseKeyOf k ≠ n ++ natDigits t) : (Cache.removeFamily c n t).lookup k = c.lookup k := by
   induction c with
   | nil => rfl
   | cons e es ih =>
@@ -548,11 +615,11 @@ theorem lookup_store_other (c : Cache) (k k' : CacheKey) (v : List Rec) (h : k' 
 /-! ## dialSend -/
 
 theorem dialSend_deep (cfg : Cfg) (q? : Option Question) (ans : Upstreams) (d : Nat) (u : UpRef)
-    (h : d ≥ maxDnsLookupDepth) : dialSend cfg q? ans d u = ([], .error .tooDeep) := by
+    (h : d ≥ cfg.maxDepth) : dialSend cfg q? ans d u = ([], .error .tooDeep) := by
   rw [dialSend]; simp [h]
 
 theorem dialSend_step (cfg : Cfg) (q? : Option Question) (ans : Upstreams) (d : Nat) (u : UpRef)
-    (h : d < maxDnsLookupDepth) :
+    (h : d < cfg.maxDepth) :
     dialSend cfg q? ans d u =
       match ans d u with
       | none => ([u], .error .forwardFail)
@@ -568,7 +635,7 @@ theorem dialSend_step (cfg : Cfg) (q? : Option Question) (ans : Upstreams) (d : 
   rfl
 
 theorem dialSend_trace_le (cfg : Cfg) (q? : Option Question) (ans : Upstreams) :
-    ∀ (n d : Nat) (u : UpRef), maxDnsLookupDepth - d = n → (dialSend cfg q? ans d u).1.length ≤ n := by
+    ∀ (n d : Nat) (u : UpRef), cfg.maxDepth - d = n → (dialSend cfg q? ans d u).1.length ≤ n := by
   intro n
   induction n with
   | zero =>
@@ -622,23 +689,23 @@ def respRules : List SrcRule :=
   [⟨[.upstream false [0], .ip false [("", ⟨true, mapped4 0x0a000000, 8⟩), ("", ⟨false, 0x20010db8 * 2 ^ 96, 32⟩)]], 1⟩,
    ⟨[.qname true [(.suffix, "cn")], .qtype false [("", 1)]], 0xFD⟩]
 
-def qCom : Question := ⟨"www.example.com.".toList, 1, []⟩
-def respPolluted : Resp := ⟨true, some qCom, [.other, .a 0x0a010203], true⟩
+def qCom : Question := { name := "www.example.com.".toList, qtype := 1, rx := [] }
+def respPolluted : Resp := { isResponse := true, q := some qCom, recs := [.other, .a 0x0a010203], rcodeOk := true }
 
-def cfg2 : Cfg := ⟨2, (compileRequest reqRules 0xFD).getD default, (compile respRules 0xFC).getD default⟩
+def cfg2 : Cfg := { nUp := 2, req := (compileRequest reqRules 0xFD).getD default, resp := (compile respRules 0xFC).getD default }
 
 /-- a request program that rejects everything, and a cache that knows the answer -/
-def cfgRejectAll : Cfg := ⟨0, (compileRequest [] 0xFC).getD default, (compile [] 0xFC).getD default⟩
-def qCached : Question := ⟨"Ads.Example.COM.".toList, 1, []⟩
+def cfgRejectAll : Cfg := { nUp := 0, req := (compileRequest [] 0xFC).getD default, resp := (compile [] 0xFC).getD default }
+def qCached : Question := { name := "Ads.Example.COM.".toList, qtype := 1, rx := [] }
 def cacheWithAnswer : Cache :=
   [(⟨"ads.example.com.".toList, 1, .asis 1⟩, [.a 0x01020304]), (⟨"ads.example.com.".toList, 1, .up 0⟩, [.a 0x05060708]),
    (⟨"other.test.".toList, 1, .asis 1⟩, [.a 0x09090909])]
 
 /-- response rules `upstream(u0) -> u1; upstream(u1) -> u0; fallback: u0`: every answer is sent on -/
 def bounceRules : List SrcRule := [⟨[.upstream false [0]], 1⟩, ⟨[.upstream false [1]], 0⟩]
-def qLoop : Question := ⟨"a.loop.".toList, 1, []⟩
-def respLoop : Resp := ⟨true, some qLoop, [.a 0x01020304], true⟩
-def bounceCfg : Cfg := ⟨2, (compileRequest [] 0).getD default, (compile bounceRules 0).getD default⟩
+def qLoop : Question := { name := "a.loop.".toList, qtype := 1, rx := [] }
+def respLoop : Resp := { isResponse := true, q := some qLoop, recs := [.a 0x01020304], rcodeOk := true }
+def bounceCfg : Cfg := { nUp := 2, req := (compileRequest [] 0).getD default, resp := (compile bounceRules 0).getD default }
 
 end Ex
 
